@@ -105,6 +105,11 @@ CHECKS = {
    note="Completeness accounts are two hand-built accounts (one per backend), not the states of the history search. Framing bytes inside the hashed value, the previous-commit field of event records and removal of only the secret rows are not named by the property: evaluated and recorded as observations, never reported.",
    technique="explicit-state BFS over real account states with the no-false-alarm invariant at every state, plus exhaustive enumeration of single-byte corruptions and removals of stored content with the report as oracle",
    design_ref="DESIGN.md §5 C16"),
+ "C17": dict(engine="filex", level="model_checking",
+   text="(a) Every history up to depth 2 (quick; 3 thorough, both client backends, also from an account that already holds a file secret) over {create file secret (large content in the default folder | small content in the second folder), replace content (update_file), update meta only, move to the other folder, delete secret, delete the second folder, archive} x every live file secret, explored as a tree with directory snapshots; after every step and again after a fresh re-open: directory walk == list_external_files == FileReducer::reduce == reference model, every blob name == hex SHA-256 of its bytes, download_file returns the original content, the secret row's checksum equals the blob name, no stray files. (b) Every maximal history of depth 2 (3 thorough, fs and sqlite worlds, also performed offline before the server is added) through the real sos_net::NetworkAccount on two devices (its own sync and file transfer queue) against a real in-process server, the second device syncing after every step; once transfers settle: the server's directory and file-log replay, the second device's directory, file-log replay and decrypted content all equal the model. (c) Upload inputs against the live server as raw signed PUT requests on a real encrypted blob: the correct body, every single-byte alteration (3 values per position quick / all 255 thorough), truncation at every length, empty, extended bodies, wrong names, connection closed midway (a GET during the stall must not be 2xx), repeated upload; each followed by a correct upload and a byte-exact download; no .upload temp file may remain.",
+   note="Each file encryption / decryption costs about 1 s of CPU (age scrypt), hence the shallow depth. Attachments (file fields of non-file secrets) are not in the alphabet. 'Settled' = no transfer in flight and no notification for 600 ms (10 s horizon); the transfer queue's internal task scheduling is not controlled. The second device shares the first device's device key (as the repository's tests do).",
+   technique="exhaustive enumeration of bounded file-secret operation histories (tree search over real account states, one- and two-device worlds with a real server) and of single-point mutations of upload bodies, against a reference model of the blob set",
+   design_ref="DESIGN.md §5 C17"),
  "C20": dict(engine="hist", level="model_checking",
    text="At every transition of the C01 search the account's incrementally maintained search index is compared with a fresh index rebuilt with add_folder over the same unlocked folders: documents (ids, folder, full meta), one document per live secret, counters (per folder, kind, tag, favourites; zero entries normalised) and query results for every label in play.",
    note="Local histories by the hist engine plus merge worlds by the sync engine (every device after every sync step).",
